@@ -71,6 +71,45 @@ def evaluate(mod, cases):
     return out
 
 
+def evaluate_one(mod, case):
+    """one case in this process (used by the shrinker and by --replay)"""
+    im = common.run_impl_inline(mod.impl, case)
+    reqs = mod.model_requests(case, im) if getattr(mod, 'MODEL_NEEDS_IMPL', False) else mod.model_requests(case)
+    mo = common.run_model(reqs, nproc=1)
+    try:
+        v = mod.judge(case, im, mo)
+    except Exception:
+        import traceback
+        v = dict(disagree=['judge crashed: %s' % traceback.format_exc()[-400:]], fail=[], nontrivial=False)
+    return case, im, mo, v
+
+
+def shrink(mod, item, budget=60):
+    """greedy shrinking of a failing case with the module's own `shrink(case)` candidates: keep a candidate while the same
+    failing clause (the text before the first ':') still fails"""
+    if not hasattr(mod, 'shrink'):
+        return item
+    c, im, mo, v = item
+    key = v['fail'][0].split(':')[0]
+    tried = 0
+    progress = True
+    while progress and tried < budget:
+        progress = False
+        for cand in mod.shrink(c):
+            tried += 1
+            if tried > budget:
+                break
+            try:
+                c2, im2, mo2, v2 = evaluate_one(mod, cand)
+            except Exception:
+                continue
+            if v2.get('fail') and v2['fail'][0].split(':')[0] == key:
+                c, im, mo, v = c2, im2, mo2, v2
+                progress = True
+                break
+    return c, im, mo, v
+
+
 def main():
     prop = sys.argv[1]
     mod = importlib.import_module(prop.lower())
@@ -139,6 +178,11 @@ def main():
             seen.add(key)
             if len(seen) > 3:
                 break
+            if os.environ.get('VERIF_SHRINK', '1') != '0':
+                try:
+                    c, im, mo, v = shrink(mod, (c, im, mo, v))
+                except Exception:
+                    pass
             path = write_replay(prop, 'fail', dict(property=prop, kind='property-fails-on-implementation', case=c, impl=im,
                                                    model=mo, failing=v['fail'], disagree=v.get('disagree', []),
                                                    replay_cmd='./check %s --replay <this file>' % prop))
@@ -223,7 +267,7 @@ def replay(prop, mod, path):
     if not ok:
         print(log)
         return 1
-    (c, im, mo, v), = evaluate(mod, [data['case']])
+    c, im, mo, v = evaluate_one(mod, data['case'])
     print(json.dumps(jsonable(dict(impl=im, model=mo, verdict=v)), indent=1, default=str))
     if v.get('fail'):
         print('VIOLATION property=%s replay=%s' % (prop, path))
